@@ -790,25 +790,31 @@ def malformed(name, d, names, kind, rng, nrows):
 
     def other_names(w):
         if w <= len(nm):
-            return nm[:w]
-        extra = [p for p in POOL if p not in nm]
-        return list(nm) + extra[:w - len(nm)]
+            base = list(nm[:w])
+        else:
+            extra = [p for p in POOL if p not in nm and p != "z"]
+            base = list(nm) + extra[:w - len(nm)]
+        # half of the malformed DataFrames carry a label the history never uses: if a refused call leaked
+        # its names, a later valid DataFrame of the history would be refused
+        if base and rng.random() < 0.5:
+            base[0] = "z"
+        return base
     if kind == "rows":
         if not batch:
             r = rng.choice([2, 2, 3, 0])
             c = rng.choice(["arr2", "list2", "df"])
             if r == 0:
-                return {"c": "empty", "shape": [0, d]} if c != "df" else {"c": "dfempty", "n": nm}
-            return bx([[g() for _ in range(d)] for _ in range(r)], c, nm)
+                return {"c": "empty", "shape": [0, d]} if c != "df" else {"c": "dfempty", "n": other_names(d)}
+            return bx([[g() for _ in range(d)] for _ in range(r)], c, other_names(d))
         opts = ["arr2", "list2", "df", "empty", "dfempty"] + (["scalar", "list1", "arr1", "series"] if d == 1 else [])
         c = rng.choice(opts)
         if c == "empty":
             return {"c": "empty", "shape": [0, d]}
         if c == "dfempty":
-            return {"c": "dfempty", "n": nm}
+            return {"c": "dfempty", "n": other_names(d)}
         if c == "scalar":
             return {"c": "py", "v": g()}
-        return bx([[g() for _ in range(d)]], c, nm)
+        return bx([[g() for _ in range(d)]], c, other_names(d))
     if kind in ("width", "multicol"):
         ws = [d + 1, d + 2] + ([d - 1] if d > 1 else []) + ([0] if kind == "width" and not batch else [])
         if kind == "multicol":
@@ -936,6 +942,9 @@ def gen_cases(ctx):
     # cases able to show a recorded finding go last (core shrinks and reports the first few direct failures
     # only), interleaved by family so that the first reported ones are of different families
     pats = [pattern(c) for c in cases]
+    # a case that could show two recorded findings at once would match neither entry: not generated
+    cases = [c for c, p in zip(cases, pats) if "+" not in p]
+    pats = [p for p in pats if "+" not in p]
     for p in pats:
         bump("pattern", p or "none")
     for c in cases:
